@@ -20,6 +20,7 @@ Inductive obs :=
 | ODone (b : bool) (live : nat)    (* is_done(), and the number of tasks held afterwards (hook) *)
 | OResolve (code : nat)            (* 0 Ok | 1 Err Never | 2 Err FinishedMany | 3 no such request held *)
 | OCall (code : nat) (effs : list oeff) (applog : list event)   (* Core call: result code, returned effects, view *)
+| OLive (n : nat)                  (* tasks held by the host (Command / Core executor), read through the hook *)
 | OPanic                           (* the implementation panicked (harness catch_unwind); never produced by the model *)
 | ONone.
 
@@ -98,6 +99,7 @@ Definition dstep (top : nat) (a : action) (st : dstate) : option (obs * dstate) 
       end
   | AAbort name => Some (ONone, mkD (d_reqs st) (add_aborted name H))
   | AEvent _ _ => Some (ONone, st)
+  | ALive => Some (OLive (c_len (gcmd top H)), st)
   | ASpawn t =>
       (* CommandContext::spawn: build the task, send it to the spawn queue; nothing runs yet *)
       let (u, H1) := new_tflag H in
@@ -244,6 +246,7 @@ Definition cstep (hs : handlers) (a : action) (k : core) : option (obs * core) :
       end
   | AAbort name => Some (ONone, setH (add_aborted name (k_H k)) k)
   | AEffects | AEvents | AIsDone | ASpawn _ => Some (ONone, k)
+  | ALive => Some (OLive (length (filter (fun o => match o with Some _ => true | None => false end) (k_slab k))), k)
   end.
 
 Fixpoint crun (hs : handlers) (acts : list action) (k : core) : option (list obs) :=
@@ -281,6 +284,7 @@ Definition obs_eqb (a b : obs) : bool :=
   | OResolve x, OResolve y => Nat.eqb x y
   | OCall c x l, OCall c' y l' => Nat.eqb c c' && list_eqb oeff_eqb x y && list_eqb event_eqb l l'
   | ONone, ONone => true
+  | OLive n, OLive m => Nat.eqb n m
   | _, _ => false
   end.
 Definition trace_eqb (a b : option (list obs)) : bool :=
